@@ -628,7 +628,10 @@ def check_c06(exe, tier, seed, verdict):
         for f in rej:
             mask |= 1 << K.index(f)
         sc.append("cbrejectk %d" % mask)
-        sc += shape.pre(R) + shape.call(1, R, cb=True) + shape.post()
+        # every second scenario next to process-wide requirements that every file of the tree FULFILS (owner, group, permission
+        # masks, set in varying order): the library's own checks pass, the caller's check is still asked about every file
+        req = [["requireperms 444 555"], ["requireowner 0", "requireperms 444 555"], ["requireperms 004 001", "requiregroup 0"], ["requireowner 0"]][(i // 2) % 4] if i % 2 else []
+        sc += req + shape.pre(R) + shape.call(1, R, cb=True) + shape.post() + (["resetsec"] if req else [])
         if ent.startswith("readhistcb"):
             sc += ["dump %d" % h for h in range(1, 9)] + ["free %d" % h for h in range(1, 9)]
         else:
@@ -706,7 +709,7 @@ def check_c06(exe, tier, seed, verdict):
     acc = n_scen - len(mism)
     cov = {"states": mc.distinct, "transitions": mc.generated, "traces_validated_against_impl": acc,
            "evaluations": n_scen, "distinct_nontrivial": nn,
-           "rule": "MC_Callback: all trees (2 names, 3 layers) x all verdict vectors in the multi-step model (Begin, Callback*, End). Traces: %d scenarios = trees of 3 layers (econf_readConfigWithCallback) and 2 layers (econf_readDirsWithCallback, econf_readDirsHistoryWithCallback, econf_readConfigWithCallback+PARSING_DIRS) x {accept all, reject each single consulted file, reject a random pair}; every regular file holds a poison line until the callback has been called for it (late-bound content); recorded Callback(path,verdict,data pointer) and End(code,out-pointer,result) events validated by Trace_Layers.tla. non-trivial = >= 3 consulted files and the first rejected one is not the first." % n_scen,
+           "rule": "(every second scenario runs next to process-wide owner / group / permission requirements that every file fulfils) MC_Callback: all trees (2 names, 3 layers) x all verdict vectors in the multi-step model (Begin, Callback*, End). Traces: %d scenarios = trees of 3 layers (econf_readConfigWithCallback) and 2 layers (econf_readDirsWithCallback, econf_readDirsHistoryWithCallback, econf_readConfigWithCallback+PARSING_DIRS) x {accept all, reject each single consulted file, reject a random pair}; every regular file holds a poison line until the callback has been called for it (late-bound content); recorded Callback(path,verdict,data pointer) and End(code,out-pointer,result) events validated by Trace_Layers.tla. non-trivial = >= 3 consulted files and the first rejected one is not the first." % n_scen,
            "samples": [events[0], events[1]] if len(events) > 1 else events, "exhaustive": False,
            "trusted_base": ["TLC 1.8.0", "gcc ASan/UBSan", "drv.c callback + late-bound content"]}
     return cov
